@@ -512,7 +512,11 @@ def evaluate_sizes(nodes, warn=null_warn):
     """
 
     def evaluate_node_size(node_, parent, member):
+        seen = set()
         while isinstance(node_, Typedef) and node_.definition:
+            if id(node_) in seen:
+                raise ModelError("cyclic definition of type '%s'" % node_.name)
+            seen.add(id(node_))
             node_ = node_.definition
         if isinstance(node_, (Struct, Union)):
             return node_.byte_size, node_.alignment
